@@ -1,11 +1,10 @@
 // C37 (sequential part): ConcurrentObjectArena growth and copies are exact.
 // Real code: dispenso::ConcurrentObjectArena<T, Index, alignment>::{ctor(minBuffSize, initialSize),
-//   copy ctor, move ctor, dtor, copy=, move=, grow_by, operator[], size, capacity, numBuffers,
-//   getBuffer, getBufferSize, swap, allocateBuffer, constructObjects}, detail::log2i,
-//   detail::alignedMalloc/alignedFree, std::vector<T**>::push_back (deleteLater_).
+//   copy ctor, move ctor, dtor, copy=, move=, grow_by, operator[], size, numBuffers, getBufferSize, swap,
+//   allocateBuffer, constructObjects}, detail::log2i, std::vector<T**>::push_back (deleteLater_).
 // Symbolic: which scenario (initialSize and the sequence of grow_by deltas) is run, the element payload
-//   (seeds).  The forall over elements is a loop with literal bounds inside each scenario.  Fixed per instance: minBuffSize, the whole-container operation (VF_OP:
-//   0 copy-construct, 1 copy-assign, 2 move-assign, 3 swap, 4 move-construct, 5 self-copy-assign).
+//   (seeds).  The forall over elements is a loop with literal bounds inside each scenario.
+//   Fixed per instance: minBuffSize, the whole-container operation (VF_OP: 0 copy-construct, 1 copy-assign, 2 move-assign, 3 swap, 4 move-construct, 5 self-copy-assign).
 // Every element i of an arena with payload seed s is written with f(s,i) = s + 3*i + 1 right after the
 // grow_by that created it, so "contents are equal" can be stated without a ghost array:
 // for every q < size, dst[q] == f(seed of the source, q).
@@ -20,7 +19,7 @@
 // Lower layer replaced by its contract: detail::alignedMalloc/alignedFree (property C44 checks the real
 // ones) become plain malloc/free.  Their pointer<->integer round trip ((base + a) & ~(a-1), recovery slot)
 // multiplies the SAT instance by ~10 and is irrelevant to the arena's bookkeeping; alignment is not
-// observable in this model.  The instance `real_alloc` keeps the real functions.
+// observable in this model.  -DVF_STUB_ALIGNED=0 keeps the real functions.
 namespace dispenso {
 namespace detail {
 inline void* c37_alignedMalloc(size_t bytes, size_t) { return ::malloc(bytes); }
@@ -156,13 +155,13 @@ INL void after(uint32_t op, Model& D, Model& A, Index post) {
   if (op == 3) checkContents(*A.a, A.seed, A.n);
 }
 
-// One scenario: every size-determining parameter (minBuffSize, initialSize, the grow_by deltas) is a literal
-// at the call site, so that buffer sizes, table capacities and buffer counts are constants for the solver
+// One scenario (one function per scenario: CBMC's per-function instrumentation is superlinear in function
+// size): every size-determining parameter (minBuffSize, initialSize, the grow_by deltas) is a literal, so that buffer sizes, table capacities and buffer counts are constants for the solver
 // (with symbolic deltas every heap object has a symbolic size and the array theory does not terminate in
 // hours).  The scenario itself is selected by a symbolic input in vf_main, the payload stays symbolic.
-INL void scenario(
-    const Index minA, const Index initA, const Index g1, const Index g2, const Index g3, const Index post,
-    const uint32_t op) {
+template <unsigned long long minA, unsigned long long initA, unsigned long long g1, unsigned long long g2,
+          unsigned long long g3, unsigned long long post, uint32_t op>
+VF_NOINLINE static void scenario() {
   Model A, B, D;
   uint32_t seedA = vf_nondet_u32();
   uint32_t seedB = vf_nondet_u32();
@@ -245,8 +244,8 @@ INL void scenario(
 #define SC(k)                                                                                         \
   case (k):                                                                                           \
     if ((k) < VF_NSC)                                                                                 \
-      scenario(VF_MINBUF, (k) % VF_DB, ((k) / VF_DB) % VF_DB, ((k) / (VF_DB * VF_DB)) % VF_DB,          \
-             ((k) / (VF_DB * VF_DB * VF_DB)) % VF_DB, ((k) + (k) / VF_DB + 1) % VF_DB, VF_OP);         \
+      scenario<VF_MINBUF, (k) % VF_DB, ((k) / VF_DB) % VF_DB, ((k) / (VF_DB * VF_DB)) % VF_DB,          \
+               ((k) / (VF_DB * VF_DB * VF_DB)) % VF_DB, ((k) + (k) / VF_DB + 1) % VF_DB, VF_OP>();     \
     break;
 #define SC3(k) SC(k) SC((k) + 1) SC((k) + 2)
 #define SC9(k) SC3(k) SC3((k) + 3) SC3((k) + 6)
